@@ -3,7 +3,7 @@
    mapped to OCaml's; N, Z, positive, nat, byte stay Coq inductives. *)
 From Coq Require Import extraction.ExtrOcamlBasic.
 Require Import Wire.Bytes Wire.Params Spec.ParamsSpec Spec.OracleC20 Spec.ErrorFields Spec.OracleC17.
-Require Import Wire.WriterModel Wire.ReaderModel Wire.ReaderExec.
+Require Import Wire.WriterModel Wire.ReaderModel Wire.ReaderExec Wire.Copy.
 Require Import Spec.BackendSpec Wire.Errors Spec.ErrorSpec Wire.Framing Wire.Session Wire.Codec Wire.Case Spec.Projection Spec.Oracles.
 
 Definition all_bytes : list byte := map byte_of_N (map N.of_nat (seq 0 256)).
@@ -14,5 +14,5 @@ Extraction "model.ml"
   parse_bmsg parse_stream enc_bmsg enc_stream wf_msg
   err_text get_code get_severity default_severity err_fields any_text flatten
   e_unimplemented oracle_C17 model_errorcode spec_fields
-  wrun xrun x_init frames serve encode_value oracle_names names_verdict oracle_C13 oracle_C19 oracle_turns oracle_C05 oracle_C01 oracle_C12 turn_verdict
+  decode_all eff_limit wrun xrun x_init frames serve encode_value oracle_C09 decode_value dval_of_value oracle_names names_verdict oracle_C13 oracle_C19 oracle_turns oracle_C05 oracle_C01 oracle_C12 turn_verdict
   run_case log_digest log_match strip_consume.
